@@ -54,7 +54,7 @@ namespace
   inline double val(int rank, int obj, Index i) { return double(rank * 1000000 + obj * 10000) + double(i) * 0.125 + 0.5; }
 
   struct ObjRec { int kind; std::string id; Snapshot ref; bool removed = false; };
-  struct RankPlan { std::vector<ObjRec> objs; std::vector<char> raw; };
+  struct RankPlan { std::vector<ObjRec> objs; std::vector<ObjRec> objs2; bool second = false; std::vector<char> raw; };
   struct Shared
   {
     int n = 1;
@@ -164,6 +164,28 @@ namespace
       for(const auto& r : plan.objs) if(!r.removed) restore_one(cp2, r, rank, g, "from a BinaryStream");
       ++SH->bs_roundtrips;
     }
+    // history: the job goes on - objects are removed, added and change their size - and a second checkpoint is
+    // written (all ranks agree on whether there is one, save() is collective)
+    plan.second = (seed % 3) != 0;
+    if(plan.second)
+    {
+      int o2 = 100;
+      for(auto& r : plan.objs)
+      {
+        if(r.removed) continue;
+        if(g.idx(3) == 0) { cp.remove_object(String(r.id)); continue; }       // dropped from the second checkpoint
+        plan.objs2.push_back(r);                                              // unchanged object, possibly at another offset now
+      }
+      const int extra = int(g.idx(3));
+      for(int e = 0; e < extra; ++e, ++o2)
+      {
+        ObjRec rec; rec.kind = int(g.idx(5));
+        do { rec.id = make_id(g, o2 % 20, plan.objs2); } while(std::any_of(plan.objs.begin(), plan.objs.end(), [&](const ObjRec& r) { return r.id == rec.id; }) || std::any_of(plan.objs2.begin(), plan.objs2.end(), [&](const ObjRec& r) { return r.id == rec.id; }));
+        make_object(O, cp, rank, o2, rec, g, true);
+        plan.objs2.push_back(rec);
+      }
+      cp.save(String("job2.cp"));
+    }
     if(with_raw)
     {
       // DistFileIO directly: per-rank buffers of different (also zero) length, common data, non-zero root
@@ -190,7 +212,17 @@ namespace
     std::vector<size_t> order;
     for(size_t i = 0; i < plan.objs.size(); ++i) if(!plan.objs[i].removed) order.push_back(i);
     for(size_t i = order.size(); i > 1; --i) std::swap(order[i - 1], order[g.idx(Index(i))]);
-    for(size_t i : order) restore_one(cp, plan.objs[i], rank, g, "after restart");
+    for(size_t i : order) if(!plan.second || g.idx(2) == 0) restore_one(cp, plan.objs[i], rank, g, "after restart");
+    if(plan.second)
+    {
+      // the same control reads the later checkpoint: identifiers now live at other offsets
+      cp.clear_input();
+      cp.load(String("job2.cp"));
+      std::vector<size_t> order2;
+      for(size_t i = 0; i < plan.objs2.size(); ++i) order2.push_back(i);
+      for(size_t i = order2.size(); i > 1; --i) std::swap(order2[i - 1], order2[g.idx(Index(i))]);
+      for(size_t i : order2) restore_one(cp, plan.objs2[i], rank, g, "from the second checkpoint read by the same control");
+    }
     if(with_raw)
     {
       std::vector<char> common, buf;
